@@ -149,12 +149,11 @@ def run_config(pid, hname, cfg, tier, seed, opts):
                 res['inconclusive'].append({'why': 'unknown', 'ob': name})
         # translator validation on the first paths of each configuration
         if res['validation']['cases'] < hopts.get('validate_paths', 2) and tag == 'ok' and W.got and not opts.get('no_validate'):
-            m = W.random_model()
-            if m is not None:
-                vals = model_values(m, c, W.inputs)
+            sm = W.sample()
+            if sm is not None:
+                vals, env = sm
                 CW, exc = run_concrete(hrun, cfg, vals, seed)
                 if exc is None:
-                    env = core.Env({core.BYKEY[('in', nm)].id: float(Fraction(*v)) for nm, v in vals.items()}, m)
                     res['validation']['cases'] += 1
                     bad = []
                     for nm, g in W.got.items():
